@@ -65,7 +65,7 @@ def cases(draw):
                            unique_by=lambda t: t[0]))
         return {"kind": "grammar", "g": g, "cfg": cfg, "inputs": texts, "classes": uc, "as_callable": draw(st.booleans()),
                 "fault": draw(st.sampled_from([None, None, ["init", 0], ["init", 1], ["init", 3], ["proc", 0], ["proc", 2],
-                                               ["nested", 0]]))}
+                                               ["nested", 0], ["match", 0], ["match", 1], ["match", 3]]))}
     nfiles = draw(st.integers(1, 3))
     return {"kind": "imports", "nfiles": nfiles, "styles": [draw(st.sampled_from(STYLES)) for _ in range(2)],
             "bad_file": draw(st.sampled_from([None, None, 0, 1, 2])), "fault": draw(st.sampled_from([None, ["init", 1]])),
@@ -92,6 +92,7 @@ def make_class(name, style, attrs, rec):
             object.__setattr__(self, k, v)
         if style == "frozen":
             object.__setattr__(self, "_frozen", True)
+        rec.setdefault("inited", set()).add(id(self))
 
     ns = {"__init__": __init__}
     if style == "slots":
@@ -178,7 +179,25 @@ def evaluate(case):
 
         return proc
 
-    mm.register_obj_processors({r["name"]: mk(r["name"]) for r in g["rules"] if kinds[r["name"]] != "match"})
+    mcount = [0]
+
+    def mk_match(base):
+        conv = {"INT": int, "ID": str, "STRING": lambda x: x[1:-1]}[base]
+
+        def proc(x):
+            # a base-type (match) processor runs while the object graph is being built
+            if fault and fault[0] == "match" and mcount[0] == fault[1]:
+                mcount[0] += 1
+                raise Boom("match processor failure injected by the harness")
+            mcount[0] += 1
+            return conv(x)
+
+        return proc
+
+    procs = {r["name"]: mk(r["name"]) for r in g["rules"] if kinds[r["name"]] != "match"}
+    if fault and fault[0] == "match":
+        procs.update({b: mk_match(b) for b in ("INT", "ID", "STRING")})
+    mm.register_obj_processors(procs)
     before = snapshot(classes)
     styles = {s for n, s in case["classes"] if kinds[n] == "common"}
     out.cls("fault:" + (fault[0] if fault else "none"), "as_callable" if case["as_callable"] else "as_list")
@@ -194,6 +213,7 @@ def evaluate(case):
         rec["inits"], rec["events"] = [], []
         rec["fail_at"] = fault[1] if fault and fault[0] == "init" else None
         pcount[0] = 0
+        mcount[0] = 0
         nested[0] = 0
         ctx = f"grammar={gtext!r} classes={case['classes']} fault={fault} input={text!r}"
         failed = None
@@ -203,7 +223,7 @@ def evaluate(case):
             failed = e
         compare_state(out, ctx, classes, before, "after_failed_load" if failed else "after_load")
         exp = [(o, o.parent) for o in it.objs if o.cls in by]
-        injected = fault is not None and fault[0] in ("init", "proc")
+        injected = fault is not None and fault[0] in ("init", "proc", "match")
         if failed is not None and not injected:
             out.add("load_failed/" + type(failed).__name__, ctx + f": {failed}")
             continue
@@ -240,6 +260,19 @@ def eval_imports(case, out):
     by = {"Def": Def, "Use": Use}
     mm = metamodel_from_str(IMPORT_GRAMMAR, classes=(lambda n: by.get(n)) if case["as_callable"] else classes)
     mm.register_scope_providers({"*.*": PlainNameImportURI()})
+    early = []
+
+    def def_proc(o):
+        rec["events"].append(("proc", "Def"))
+
+    def use_proc(o):
+        rec["events"].append(("proc", "Use"))
+        # the processed object and the (possibly cross-file) object it refers to are initialised user objects
+        for x in (o, o.ref):
+            if id(x) not in rec.get("inited", set()):
+                early.append(type(x).__name__)
+
+    mm.register_obj_processors({"Def": def_proc, "Use": use_proc})
     before = snapshot(classes)
     n = case["nfiles"]
     bad = case["bad_file"] if case["bad_file"] is not None and case["bad_file"] < n else None
@@ -265,6 +298,11 @@ def eval_imports(case, out):
         if failed is not None and bad is None and not case["fault"]:
             out.add("imports/load_failed", ctx + f": {failed}")
         if failed is None and not case["fault"]:
+            ev = [e[0] for e in rec["events"]]
+            if early:
+                out.add("imports/processor_saw_uninitialised_user_object", ctx + f": {early[:3]}")
+            elif "proc" in ev and "init" in ev[ev.index("proc"):]:
+                out.add("imports/init_after_processor", ctx + f": events {rec['events'][:14]}")
             nobj = n + n + (n - 1)
             if len(rec["inits"]) != nobj:
                 out.add("imports/init_count", ctx + f": {len(rec['inits'])} __init__ calls for {nobj} objects")
